@@ -288,7 +288,7 @@ def run(ctx):
     r_meta_items(ctx)
     # "counts and the id set reported by a reader agree": every successful build (re)publishes the metadata
     be = C06.build_entry(ctx.F)
-    if be is not None:
+    if ctx.need(be is not None, 'R-PUBLISH', 'build entry'):
         ctx.check(C06.always_passes(ctx.F, be, C06.is_metadata_put(ctx.F)), 'R-PUBLISH', '%s/metadata' % be.path, be.loc(),
                   'every success path of the build writes the metadata (item ids, roots, metric)',
                   'a success path of `%s` returns without rewriting the metadata: the reader\'s item ids / counts can disagree with the item store' % be.path)
